@@ -1127,6 +1127,9 @@ def Op.wf : Op → Prop
   | .addToGauge o _ _ => o ≠ incAddr
   | _ => True
 
+instance (op : Op) : Decidable op.wf := by
+  cases op <;> (unfold Op.wf; infer_instance)
+
 theorem owed_append (gs : List Gauge) (g : Gauge) (i : Nat) : owed (gs ++ [g]) i = owed gs i + owedG g i := by
   simp [owed]
 
